@@ -330,6 +330,23 @@ def c15_r4(ctx: Ctx, rule):
         res.fail(rule.id, "element-relation-partition", ctx.loc(bq, bf.node), "the element / relation partition of _bundle_to_dot is incomplete", "some records are neither drawn as nodes nor as edges")
 
     # the attribute partitions
+    def loop_partition(fq, var):
+        """var = []; for a, v in X.attributes: if a not in S: var.append(..)   ->  (source, S)"""
+        f = ctx.fn(fq)
+        for n in walk_function(f.node):
+            if isinstance(n, ast.For) and "attributes" in norm(n.iter):
+                for t in ast.walk(n):
+                    if isinstance(t, ast.If) and isinstance(t.test, ast.Compare) and isinstance(t.test.ops[0], (ast.NotIn, ast.In)):
+                        appends = [c for c in ast.walk(t) if isinstance(c, ast.Call) and call_name(c) == "append" and norm(c.func.value) == var]
+                        skips = isinstance(t.test.ops[0], ast.In) and any(isinstance(x, ast.Continue) for x in t.body)
+                        if appends or skips:
+                            try:
+                                sset = ctx.eval_in(fq, t.test.comparators[0])
+                            except AnalysisError:
+                                sset = None
+                            return norm(n.iter).split(".")[-1], (frozenset(sset) if isinstance(sset, (set, frozenset)) else norm(t.test.comparators[0])), n
+        return None
+
     def partition(fq, name_hint):
         f = ctx.fn(fq)
         for n in walk_function(f.node):
@@ -347,7 +364,7 @@ def c15_r4(ctx: Ctx, rule):
         return None
 
     aq = bq + ".<locals>._attach_attribute_annotation"
-    pa = partition(aq, "annotation")
+    pa = partition(aq, "annotation") or loop_partition(aq, "attributes")
     # in the relation loop: the variable deciding add_attribute_annotation
     dec = None
     for n in walk_function(bf.node):
@@ -368,6 +385,10 @@ def c15_r4(ctx: Ctx, rule):
                             dec = (norm(g0.iter).split(".")[-1], frozenset(s) if isinstance(s, (set, frozenset)) else norm(cond.comparators[0]), d)
                     elif isinstance(d, ast.Attribute) and "attributes" in d.attr:
                         dec = (d.attr, "<property %s>" % d.attr, d)
+                    elif isinstance(d, (ast.List, ast.Call)) and dec is None:
+                        lp = loop_partition(bq, nm)
+                        if lp:
+                            dec = lp
     if pa is None or dec is None:
         raise AnalysisError("cannot extract the attribute partitions of the DOT annotation logic")
     same = pa[0] == dec[0] and pa[1] == dec[1]
